@@ -1,40 +1,38 @@
 ---------------------------- MODULE MC_Security ----------------------------
-(* C16 on the model: the three restriction flags as a state machine (RequireOwner, RequireGroup,
-   ForbidSymlinks, Reset) x every small tree x every assignment of {matching, foreign} owner/group
-   and {regular, symlink} to each consulted file; a Read in every flag state.
+(* C16 on the model: the restriction settings as a state machine (RequireOwner / RequireGroup with the usual or
+   another id, ForbidSymlinks, AllowSymlinks, RequirePerms lenient / strict, Reset) x every small tree x every
+   assignment of {matching, foreign} owner/group, {regular, symlink} and {ok, bad} permission bits to each consulted
+   file; a Read in every settings state.
    Invariants: a read succeeds iff every consulted file passes every active rule; otherwise it
    reports a code of the FIRST failing file and nothing is handed back; a refused file is never
    asked about in the callback; after Reset every file is accepted.                           *)
 EXTENDS Security, TLC
 CONSTANTS NLay, NameSet
-VARIABLES main, drop, stage, attrs, flags, last, nops
-vars == <<main, drop, stage, attrs, flags, last, nops>>
+VARIABLES main, drop, stage, attrs, flags
+vars == <<main, drop, stage, attrs, flags>>
 Tree == [main |-> main, drop |-> drop, mshape |-> "both", dshape |-> "both"]
-NoRead == [rc |-> "none", rcs |-> {}, log |-> <<>>, cfg |-> <<>>, errfile |-> <<>>, hist |-> <<>>]
 Kset == {Consulted(Tree)[j] : j \in 1..Len(Consulted(Tree))}
 
-Init == main = <<>> /\ drop = <<>> /\ stage = 0 /\ attrs = <<>> /\ flags = NoFlags /\ last = NoRead /\ nops = 0
+Init == main = <<>> /\ drop = <<>> /\ stage = 0 /\ attrs = <<>> /\ flags = NoFlags
 Grow == /\ stage < NLay /\ stage' = stage + 1
         /\ \E k \in MainKinds, d \in SUBSET NameSet : main' = Append(main, k) /\ drop' = Append(drop, d)
-        /\ UNCHANGED <<attrs, flags, last, nops>>
+        /\ UNCHANGED <<attrs, flags>>
 ChooseAttrs == /\ stage = NLay /\ stage' = NLay + 1
-               /\ \E a \in [Kset -> [own : {"ok", "foreign"}, grp : {"ok", "foreign"}, link : BOOLEAN]] :
-                    attrs' = [f \in AllFiles(Tree) |-> IF f \in Kset THEN a[f] ELSE [own |-> "ok", grp |-> "ok", link |-> FALSE]]
-               /\ UNCHANGED <<main, drop, flags, last, nops>>
-Ready == stage = NLay + 1 /\ nops < 4
-SetFlag == /\ Ready /\ nops' = nops + 1
-           /\ flags' \in {RequireOwner(flags), RequireGroup(flags), ForbidSymlinks(flags), AllowSymlinks(flags), ResetFlags(flags)}
-           /\ UNCHANGED <<main, drop, stage, attrs, last>>
-DoRead == /\ Ready /\ nops' = nops + 1
-          /\ last' = Read(Tree, FaultsOf(Tree, attrs, flags))
-          /\ UNCHANGED <<main, drop, stage, attrs, flags>>
-Next == Grow \/ ChooseAttrs \/ SetFlag \/ DoRead
+               /\ \E a \in [Kset -> {x \in [own : {"ok", "foreign"}, grp : {"ok", "foreign"}, link : BOOLEAN, perm : {"ok", "bad"}] : x.link => x.perm = "ok"}] :
+                    attrs' = [f \in AllFiles(Tree) |-> IF f \in Kset THEN a[f] ELSE [own |-> "ok", grp |-> "ok", link |-> FALSE, perm |-> "ok"]]
+               /\ UNCHANGED <<main, drop, flags>>
+\* (the settings space is finite - 54 combinations - and every one is reached by at most four setter calls; the reads are
+\* evaluated by the invariants in every state, so no read action is needed)
+Ready == stage = NLay + 1
+SetFlag == /\ Ready
+           /\ flags' \in {RequireOwner(flags, "ok"), RequireOwner(flags, "foreign"), RequireGroup(flags, "ok"), RequireGroup(flags, "foreign"),
+                         ForbidSymlinks(flags), AllowSymlinks(flags), RequirePerms(flags, "lenient"), RequirePerms(flags, "strict"), ResetFlags(flags)}
+           /\ UNCHANGED <<main, drop, stage, attrs>>
+Next == Grow \/ ChooseAttrs \/ SetFlag
 Spec == Init /\ [][Next]_vars
-view == <<main, drop, stage, attrs, flags, last>>
 
 K == Consulted(Tree)
 Passes(f) == Violations(Tree, attrs, flags, f) = {}
-\* (evaluated right after a read: `last` belongs to the current flags only then, so compare with a fresh Read)
 Now == Read(Tree, FaultsOf(Tree, attrs, flags))
 SucceedsIffAllPass == stage = NLay + 1 /\ K # <<>> => ((Now.rc = "ECONF_SUCCESS") <=> \A j \in 1..Len(K) : Passes(K[j]))
 FirstFailingDecides == stage = NLay + 1 /\ Now.rc \notin {"ECONF_SUCCESS", "ECONF_NOFILE"} =>
@@ -42,5 +40,9 @@ FirstFailingDecides == stage = NLay + 1 /\ Now.rc \notin {"ECONF_SUCCESS", "ECON
    /\ Now.rcs = {CodeOf(x) : x \in Violations(Tree, attrs, flags, K[j])}
    /\ Now.errfile = <<K[j]>> /\ Now.cfg = <<>> /\ Now.hist = <<>>
    /\ \A i \in 1..Len(Now.log) : Now.log[i] # K[j]                 \* never shown to the callback
+\* every setter changes its own setting only (checked on every step: an action property)
+Independent == [][\A k \in {"owner", "group", "nosym", "perms"} :
+                    flags'[k] # flags[k] => \/ flags' = NoFlags
+                                             \/ \A k2 \in {"owner", "group", "nosym", "perms"} \ {k} : flags'[k2] = flags[k2]]_vars
 ResetAcceptsAll == stage = NLay + 1 => Read(Tree, FaultsOf(Tree, attrs, ResetFlags(flags))).rc \in {"ECONF_SUCCESS", "ECONF_NOFILE"}
 =============================================================================
